@@ -103,8 +103,11 @@ theorem attr_number (env : Env F) (strict : Bool) (a : AttrD) (hty : a.ty = .one
   have e44 : (c == 44) = false := by simpa using hc44
   have e41 : (c == 41) = false := by simpa using hc41
   simp only [hder, Bool.false_eq_true, if_false, e36, e44, e41, Bool.or_self, hty]
+  have hrS : readNumberS env.ops env.lex (some attrDelims) (G l (c :: (u ++ (seps ++ d :: rest))) sk) Sev.null =
+      (some v, G (seps.reverse ++ ((c :: u).reverse ++ l)) (d :: rest) sk, Sev.null) := by
+    rw [readNumberS_of _ _ _ _ _ (by rw [hr]; exact hnn), hr]
   unfold attrSTEPread.scalarNodeReadAttr
-  simp only [bind, Except.bind, pure, Except.pure, hr]
+  simp only [bind, Except.bind, pure, Except.pure, hrS]
   simp [realValue, hnn, valueToAtom]
 
 end StepModel.P21.RLemmas
